@@ -319,10 +319,12 @@ def reused_clustering(run, tier, rng):
                     ms = tr.run(w.copy())
                     rs.run(w.copy())
                 except Exception as e:
-                    single = "labels" in rec and any(len(np.unique(rec["u"][rec["labels"] == k], axis=0)) == 1 for k in np.unique(rec["labels"]))
+                    # fewer than d+1 distinct training points (the weighted resampling inside from_particles may even keep one)
+                    single = "labels" in rec and any(len(np.unique(rec["u"][rec["labels"] == k], axis=0)) <= rec["u"].shape[1]
+                                                     for k in np.unique(rec["labels"]))
                     if single and type(e).__name__ == "LinAlgError":
-                        run.fail("single-point-cluster-singular-scale", "a cluster whose trimmed training set is one distinct point makes "
-                                 f"ModeStatistics.from_particles raise LinAlgError: {e} (fit_mvstud solves with a zero scale matrix)", **what)
+                        run.fail("single-point-cluster-singular-scale", "a cluster whose trimmed training set has at most d distinct points makes "
+                                 f"ModeStatistics.from_particles raise LinAlgError: {e} (fit_mvstud solves with a singular scale matrix)", **what)
                     else:
                         run.fail("train-resample-raises", f"Trainer/Resampler raised {type(e).__name__}: {e}", **what)
                     continue
